@@ -103,6 +103,16 @@ impl Ctx {
         self.world.wait_io_quiet();
     }
 
+    /// Keep a client handle alive beyond the session without running its `Drop` now (see
+    /// `World::keep`); in free-running mode it is simply leaked.
+    pub fn forget<T: Send + 'static>(&self, x: T) {
+        if self.free.is_some() {
+            std::mem::forget(x);
+            return;
+        }
+        self.world.keep(x);
+    }
+
     pub fn stall_transport(&self) {
         self.world.stall_transport();
     }
@@ -175,6 +185,7 @@ pub fn run_once(scn: &dyn Scenario, params: &Value, prefix: &[usize], sigs: &[u6
     let ok = world.run_to_completion(Duration::from_secs(30));
     verif::install(None);
     let (points, outcome) = world.outcome(!ok);
+    world.bury(ok && (outcome.io_gone || !outcome.io_existed) && outcome.deadlock.is_none());
     let mut machinery = None;
     if let Some(d) = &outcome.diverged {
         machinery = Some(format!("replay diverged: {}", d));
